@@ -28,6 +28,11 @@ func TestConcurrentWriters(t *testing.T) {
 		// verdict of callback c for write i
 		pattern := rapid.SliceOfN(rapid.SampledFrom([]string{approve, approve, approve, approve, deny, silent}), 7, 7).Draw(t, "pattern")
 		verdict := func(i, c int) string { return pattern[(i*3+c*5)%len(pattern)] }
+		// some of the writes carry the complete list, without filter: always the same texts, the ones the
+		// partial writes set too - so once such a write has been applied, the following ones repeat
+		// what the feature holds (a device that sends its values periodically)
+		shapes := rapid.SliceOfN(rapid.SampledFrom([]string{"partial", "partial", "partial", "full"}), 5, 5).Draw(t, "shapes")
+		complete := []string{"w-0-0", "w-0-1", "w-0-2"}
 
 		e := &env{w: world.New()}
 		defer e.w.Teardown()
@@ -72,6 +77,16 @@ func TestConcurrentWriters(t *testing.T) {
 		ws := make([]write, nW)
 		for i := range ws {
 			ws[i] = write{peer: 0, item: i % 3, ack: true, counter: model.MsgCounterType(5000 + i)}
+			if shapes[i%len(shapes)] == "full" {
+				ws[i].full, ws[i].payload = true, complete
+			}
+		}
+		// the items a write sets
+		itemsOf := func(w write) []int {
+			if w.full {
+				return []int{0, 1, 2}
+			}
+			return []int{w.item}
 		}
 		var stop atomic.Bool
 		done := make(chan struct{})
@@ -140,7 +155,7 @@ func TestConcurrentWriters(t *testing.T) {
 				}
 			}
 			s, er := e.outcomes(w)
-			what := fmt.Sprintf("write %d of %d (msgCounter %d, verdicts of the %d callbacks: %v): %d success and %d error results", i, nW, w.counter, nCb, func() (v []string) {
+			what := fmt.Sprintf("write %d of %d (%s, msgCounter %d, verdicts of the %d callbacks: %v): %d success and %d error results", i, nW, w.shape(), w.counter, nCb, func() (v []string) {
 				for c := 0; c < nCb; c++ {
 					v = append(v, verdict(i, c))
 				}
@@ -153,13 +168,17 @@ func TestConcurrentWriters(t *testing.T) {
 				if s+er != 1 {
 					world.Fail(t, "C12/outcome-count/concurrent-arrivals", "%s (exactly one result)", what)
 				}
-				if s == 1 {
-					lastApproved[w.item] = i
+				for _, item := range itemsOf(w) {
+					if s == 1 {
+						lastApproved[item] = i
+					}
+					unsure[item] = true
 				}
-				unsure[w.item] = true
 			case all:
 				approved++
-				lastApproved[w.item] = i
+				for _, item := range itemsOf(w) {
+					lastApproved[item] = i
+				}
 				if s != 1 || er != 0 {
 					world.Fail(t, "C12/approved-write/concurrent-arrivals", "every callback approved within half the time-out of %v, but %s (exactly one success result)", T, what)
 				}
@@ -200,10 +219,16 @@ func TestConcurrentWriters(t *testing.T) {
 		if slow > 0 {
 			labels = append(labels, "concurrent/slow-approvals-not-judged")
 		}
-		world.Record(world.Hash("concurrent", nCb, nW, pattern), nt, labels...)
+		for _, sh := range shapes {
+			if sh == "full" {
+				labels = append(labels, "concurrent/with-repeated-full-writes")
+				break
+			}
+		}
+		world.Record(world.Hash("concurrent", nCb, nW, pattern, shapes), nt, labels...)
 		world.AddExtra("concurrent_writes", int64(nW))
 		if nt && world.WantSample() {
-			world.Sample(map[string]any{"kind": "concurrent-writers", "callbacks": nCb, "writes": nW, "verdict_pattern": pattern, "approved": approved, "denied": refused, "timed_out": timedOut})
+			world.Sample(map[string]any{"kind": "concurrent-writers", "callbacks": nCb, "writes": nW, "verdict_pattern": pattern, "shape_pattern": shapes, "approved": approved, "denied": refused, "timed_out": timedOut})
 		}
 	}))
 }
